@@ -13,12 +13,10 @@ Fixpoint str_eqb (a b : str) : bool :=
   end.
 
 (* SerializationErrorCode values that can leave LoadObject (EValidation carries the map of
-   ValidationException), plus EUninit for undefined behaviour of the modelled code (read of an
-   indeterminate value) *)
+   ValidationException) *)
 Inductive exc :=
 | EParsing | EOutOfRange | EOverflow | EMismatch
-| EValidation (m : list (str * list str))
-| EUninit.
+| EValidation (m : list (str * list str)).
 
 Inductive outcome (X : Type) := Ok (x : X) | Exc (e : exc).
 Arguments Ok {X} x.
@@ -54,6 +52,22 @@ Section SeqSpec.
      documents in P) *)
   Definition prior_independent (Q : A -> Prop) (P : D -> Prop) : Prop :=
     forall p d s, Q p -> P d -> el p d s = el dflt d s.
+
+  (* the weaker form that suffices where an element that is not loaded is reset: exceptions, the
+     "loaded" result and the state do not depend on the previous content, and neither does the value
+     WHEN it is loaded (when it is not, the loader typically returns the previous content unchanged) *)
+  Definition agree_when_loaded (o1 o2 : outcome (A * bool * S)) : Prop :=
+    match o1, o2 with
+    | Ok (v1, true, s1), Ok (v2, true, s2) => v1 = v2 /\ s1 = s2
+    | Ok (_, false, s1), Ok (_, false, s2) => s1 = s2
+    | Exc e1, Exc e2 => e1 = e2
+    | _, _ => False
+    end.
+  Definition prior_independent_when_loaded (Q : A -> Prop) (P : D -> Prop) : Prop :=
+    forall p d s, Q p -> P d -> agree_when_loaded (el p d s) (el dflt d s).
+  (* a loader that reports "not loaded" has left a fresh element as it was *)
+  Definition unloaded_keeps_fresh (P : D -> Prop) : Prop :=
+    forall d s v s', P d -> el dflt d s = Ok (v, false, s') -> v = dflt.
 End SeqSpec.
 
 Section MapSpec.
